@@ -1040,6 +1040,9 @@ func (t *tree) parseMapLiteral(first item, expr ast.Node) ast.Node {
 	var items = make(map[string]ast.Node)
 	var key = firstKey.Value
 	for {
+		if _, dup := items[key]; dup {
+			t.errorf("map literal has the key %q twice", key)
+		}
 		items[key] = t.parseExpr(0)
 		next := t.next()
 		if next.typ == itemRightBracket {
